@@ -3,7 +3,10 @@ from vf.props import reg, COMMON_ASSUMPTIONS
 
 reg(Prop(
     'C04',
-    [Harness('c04_algebra', parts=16, slices=5)],
+    [Harness('c04_algebra', parts=16, slices=5),
+     # the same harness once more with every lvalue operand passed as a NON-CONST lvalue (the category a library that
+     # forwards with the wrong value category can move from); each such operand must hold its value afterwards
+     Harness('c04_algebra_nc', src=['c04_algebra.cpp'], parts=16, slices=5, extra_flags='-DC04_NONCONST_LVALUES')],
     rule='Exhaustive over a three-element value domain (distinct wrapper types val<Tag> for successes, failures and the '
          'variant alternatives; a moved-from val is marked, so a continuation that receives an already consumed object is '
          'seen).  Continuations are table-driven function objects; table id t enumerates ALL functions between the finite '
